@@ -387,6 +387,44 @@ var shapes = []shape{
 				}
 			}
 		}},
+	{name: "arrays", nums: []int{1, 2, 3, 4, 5, 6, 7},
+		mk: func() any {
+			v := pArrays{}
+			// at most two non-zero bytes per array, at symbolic positions: the zero test reads the array in 8/4/2/1 byte
+			// pieces, so the interesting values are those whose only non-zero bytes sit in one particular piece
+			set := func(b []byte) {
+				i := vfIntIn(0, len(b)-1)
+				b[i] = vfByte()
+				b[len(b)-1] = vfByte()
+			}
+			switch vfIntIn(0, 5) { // one array per path carries the non-zero bytes, the others are zero (and omitted)
+			case 0:
+				set(v.A[:])
+			case 1:
+				set(v.B[:])
+			case 2:
+				set(v.C[:])
+			case 3:
+				set(v.D[:])
+			case 4:
+				set(v.E[:])
+			default:
+				set(v.F[:])
+			}
+			v.G = int32(int8(vfByte()))
+			return v
+		},
+		newp: func() any { return new(pArrays) },
+		check: func(v, p any) {
+			a, b := v.(pArrays), *p.(*pArrays)
+			vfAssert(a.A == b.A, "arrays.A")
+			vfAssert(a.B == b.B, "arrays.B")
+			vfAssert(a.C == b.C, "arrays.C")
+			vfAssert(a.D == b.D, "arrays.D")
+			vfAssert(a.E == b.E, "arrays.E")
+			vfAssert(a.F == b.F, "arrays.F")
+			vfAssert(a.G == b.G, "arrays.G")
+		}},
 }
 
 type pPair struct {
@@ -399,4 +437,13 @@ type pMapPtr struct {
 	B map[string]*int64
 	C map[uint32]*pInner
 	P *pPair
+}
+type pArrays struct {
+	A [3]byte
+	B [6]byte
+	C [7]byte
+	D [13]byte
+	E [14]byte
+	F [15]byte
+	G int32
 }
